@@ -77,7 +77,7 @@ func main() {
 				os.Exit(1)
 			}
 		}
-		fmt.Println("ok height", h.Height, time.Since(t0))
+		fmt.Println("ok height", h.Height, time.Since(t0), "uvrise send enabled:", h.App.BankKeeper.IsSendEnabledDenom(h.Ctx(), "uvrise"))
 		return
 	}
 	f, ok := props[cmd]
